@@ -113,10 +113,43 @@ func (d *scriptDialer) Dial(network, address string) (net.Conn, error) {
 			}
 		}()
 		var seen []string
+		base := 0
 		for _, st := range p.lines {
 			switch st[0] {
 			case 'S':
+				// everything the client writes from the moment this line goes out counts as its reaction to it (the
+				// client may answer before this goroutine runs again: take the mark BEFORE writing)
+				mu.Lock()
+				base = len(p.result.got)
+				mu.Unlock()
 				conn.Write([]byte(st[1:] + "\r\n"))
+			case 'E':
+				// behave like a server from here on: every CAP REQ (those already received included) is acknowledged as
+				// it stands, until the client has been silent for 600 ms or has closed
+				ack := func(l string) {
+					if strings.HasPrefix(l, "CAP REQ :") {
+						mu.Lock()
+						base = len(p.result.got)
+						mu.Unlock()
+						conn.Write([]byte(":srv CAP * ACK :" + strings.TrimPrefix(l, "CAP REQ :") + "\r\n"))
+					}
+				}
+				for _, l := range seen {
+					ack(l)
+				}
+			echo:
+				for {
+					select {
+					case l, ok := <-lines:
+						if !ok {
+							break echo
+						}
+						seen = append(seen, l)
+						ack(l)
+					case <-time.After(600 * time.Millisecond):
+						break echo
+					}
+				}
 			case 'W':
 				found := false
 				for _, l := range seen {
@@ -138,11 +171,13 @@ func (d *scriptDialer) Dial(network, address string) (net.Conn, error) {
 				}
 			}
 		}
-		// after the last scripted line: collect what else the client writes until it closes (or 300 ms of silence)
-		mu.Lock()
-		base := len(p.result.got)
-		mu.Unlock()
+		// after the last scripted line: collect what else the client writes until it closes (or 400 ms of silence)
 		gotAny := false
+		mu.Lock()
+		if len(p.result.got) > base {
+			gotAny = true // the reaction is already here
+		}
+		mu.Unlock()
 		for {
 			// the client's reaction to the last scripted line may take a while on a loaded machine: wait up to 3 s
 			// for its first line (or the close), then for 400 ms of silence
@@ -250,6 +285,11 @@ func init() {
 			capLine += " sasl"
 		}
 		first := newPeer("plain", "WUSER", "S:srv CAP * LS :"+capLine, "WCAP REQ", "S:srv CAP * ACK :multi-prefix sts"+map[bool]string{true: " sasl", false: ""}[in["sasl"] == "1"])
+		if in["multiline"] == "1" {
+			// the advertisement is split over two lines, the policy on the second; the server acknowledges every request as it stands
+			rest := strings.TrimPrefix(capLine, "multi-prefix ")
+			first = newPeer("plain", "WUSER", "S:srv CAP * LS * :multi-prefix away-notify", "S:srv CAP * LS :"+rest, "E")
+		}
 		if cfg.SSL {
 			first.kind = "tls"
 		}
@@ -323,7 +363,11 @@ func init() {
 		r2 := connectWithTimeout(cl, d)
 		d.wg.Wait()
 		_ = r2
-		expired := ago > dur
+		// `strictTransport.expired()` as the timed model computes it (time in ns; the policy was received `ago` seconds ago)
+		expired := c.L.Call("sts.expired", fmt.Sprint(int64(ago)*1e9+1000), fmt.Sprint(dur), "0") == "1"
+		if expired != (ago > dur) {
+			c.R.Mismatch("sts.expired_arith", hin, fmt.Sprint(ago > dur), fmt.Sprint(expired))
+		}
 		m := strings.Fields(c.L.Call("sts.dialfail", bl(cfg.DisableSTSFallback), bl(expired), fmt.Sprint(port), fmt.Sprint(dur)))
 		if kind == "sniff" {
 			// tls.Client handshakes lazily: newConn itself succeeds, the failure surfaces as an I/O error of the
@@ -424,6 +468,14 @@ func init() {
 		r3 := connectWithTimeout(cl, d)
 		d.wg.Wait()
 		impl := fmt.Sprintf("hello1=%v r1=%s r2=%s dials=%v r3=%s", isHello(p.result.firstBytes), r1, r2, d.dials, r3)
+		// the timed model on the same history: clean end at 2.3 s, failing dial right after
+		tm := c.L.Call("sts.timed", "6697", "1", "0", "cleanEnd:2300000000", "dialFail:2310000000:0")
+		if !strings.Contains(tm, "stsUpgradeFailed | 6697 1 ") {
+			c.R.Mismatch("sts.timed_model", hin, impl, tm)
+		}
+		if nr := c.L.Call("sts.timed.norebase", "6697", "1", "0", "cleanEnd:2300000000", "dialFail:2310000000:0"); !strings.Contains(nr, "stsFallback") {
+			c.R.Mismatch("sts.timed_norebase", hin, "the scenario does not distinguish re-basing", nr)
+		}
 		if !isHello(p.result.firstBytes) || r1 != "nil" {
 			c.R.Mismatch("sts.rebase_setup", hin, impl, "first connection: TLS through the stored policy, closed cleanly")
 			return
@@ -433,6 +485,45 @@ func init() {
 				"after a cleanly closed TLS session the policy is unexpired (its lifetime restarts at disconnection): a failed dial must return an upgrade error and later connects keep using the TLS port")
 		}
 		c.R.Count("stsrebase", true, "rebase")
+	}
+}
+
+func init() {
+	// A failed upgrade must leave nothing behind: plaintext server acknowledges a policy, the TLS redial is refused (the
+	// policy falls back), the application connects again — an ordinary plaintext session — and calls Close(): Connect
+	// returns nil and no further dial is made.
+	runners["stsfailedthenclose"] = func(c *Ctx, in map[string]string) {
+		hin := hexIn(in)
+		cfg := girc.Config{Server: "irc.example.org", Port: 6667, Nick: "me", User: "me", TLSConfig: &tls.Config{InsecureSkipVerify: true}}
+		cl := girc.New(cfg)
+		first := newPeer("plain", "WUSER", "S:srv CAP * LS :multi-prefix sts=port=6697", "WCAP REQ", "S:srv CAP * ACK :multi-prefix sts")
+		third := newPeer("plain", "WUSER", "S:srv CAP * LS :multi-prefix", "WCAP REQ", "S:srv CAP * ACK :multi-prefix", "WCAP END", "S:srv 001 me :Welcome", "SPING :x", "WPONG")
+		d := &scriptDialer{peers: []*peerScript{first, newPeer("fail"), third, newPeer("fail"), newPeer("fail")}}
+		r1 := connectWithTimeout(cl, d)
+		d.wg.Wait()
+		done := make(chan string, 1)
+		go func() { done <- connectWithTimeout(cl, d) }()
+		deadline := time.Now().Add(4 * time.Second)
+		for time.Now().Before(deadline) && !cl.IsConnected() {
+			time.Sleep(5 * time.Millisecond)
+		}
+		time.Sleep(150 * time.Millisecond)
+		cl.Close()
+		r2 := <-done
+		d.wg.Wait()
+		d.mu.Lock()
+		dials := append([]string{}, d.dials...)
+		d.mu.Unlock()
+		impl := fmt.Sprintf("r1=%s r2=%s dials=%v", r1, r2, dials)
+		if r1 != "stsfail" || len(dials) < 3 || dials[1] != "irc.example.org:6697" {
+			c.R.Mismatch("sts.failedthenclose_setup", hin, impl, "first Connect: upgrade to :6697 refused => upgrade error")
+			return
+		}
+		if r2 != "nil" || len(dials) != 3 {
+			c.R.Violation("sts.stale_upgrade_request", hin, impl, "r2=nil and exactly three dials",
+				"after a failed upgrade a later ordinary session ended by Close() must make Connect return nil without dialling again")
+		}
+		c.R.Count("stsfailedthenclose", true, "failed-upgrade-then-close")
 	}
 }
 
@@ -465,6 +556,12 @@ func runC10(c *Ctx) {
 			r.Traces++
 		}
 	}
+	for _, adv := range []string{"port=6697", "port=15", "", "duration=100,port=6697"} {
+		in := map[string]string{"advert": adv, "multiline": "1"}
+		c.run("stsupgrade", in)
+		r.Count(fmt.Sprint(in), true, "upgrade-multiline")
+		r.Traces++
+	}
 	r.Exhaustive = true
 	for _, port := range []string{"6697", "-1"} {
 		for _, age := range [][2]string{{"1000", "5"}, {"10", "50"}, {"-1", "0"}, {"9223372036854775807", "5"}, {"10000000000", "100"}, {"31536000", "86400"}, {"50", "50"}, {"50", "52"}} {
@@ -483,6 +580,8 @@ func runC10(c *Ctx) {
 		r.Count("tls:"+adv, true, "tls-matrix")
 		r.Traces++
 	}
+	c.run("stsfailedthenclose", map[string]string{"scenario": "ack, refused redial, plain session, Close"})
+	r.Traces++
 	c.run("stsrebase", map[string]string{"duration": "1", "session": "2.3s"})
 	r.Traces++
 	r.Sample(map[string]string{"scenario": "plaintext, server ACKs sts=port=6697", "expected": "no line after ACK; redial irc.example.org:6697; first bytes 16 03"})
